@@ -252,3 +252,96 @@ Fixpoint so_ops_run (h : so_db) (l : list so_op) : cprog (so_db * list so_out) :
     r' <~ so_ops_run (fst r) t ;;
     CRet (fst r', snd r :: snd r')
   end.
+
+(* ------------------------------------------------------------------------- *)
+(* graph.rs: removals (graph only)                                            *)
+(* ------------------------------------------------------------------------- *)
+(* free_index *)
+Definition so_free_index (g : cg_data) (index : Z) : cprog unit :=
+  next_free <~ cg_get g GfFromMeta 0 ;;
+  cg_set g GfFromMeta index next_free ;;~
+  cg_set g GfFromMeta 0 (- index) ;;~
+  cg_set g GfFrom index 0 ;;~
+  cg_set g GfTo index 0 ;;~
+  cg_set g GfToMeta index 0.
+
+(* `while meta(previous) != target { previous = meta(previous) }` (the code reads twice per round); the fuel — the
+   capacity, as in Graph.v — stands for the loop: running out of it (CErr) stands for non-termination *)
+Fixpoint so_find_prev (g : cg_data) (f : cg_field) (fuel : nat) (previous target : Z) : cprog Z :=
+  match fuel with
+  | O => CErr CvData
+  | S k =>
+    nx <~ cg_get g f previous ;;
+    if (nx =? target)%Z then CRet previous
+    else nx2 <~ cg_get g f previous ;; so_find_prev g f k nx2 target
+  end.
+
+Definition so_remove_from_edge (g : cg_data) (index : Z) : cprog unit :=
+  fi <~ cg_get g GfFrom index ;;
+  let node_index := (- fi)%Z in
+  ff <~ cg_get g GfFrom node_index ;;
+  let first_index := (- ff)%Z in
+  next <~ cg_get g GfFromMeta index ;;
+  (if (first_index =? index)%Z then cg_set g GfFrom node_index next
+   else previous <~ so_find_prev g GfFromMeta (N.to_nat (cg_capacity g)) first_index (- index) ;;
+        cg_set g GfFromMeta previous next) ;;~
+  count <~ cg_get g GfFromMeta node_index ;;
+  cg_set g GfFromMeta node_index (count - 1).
+
+Definition so_remove_to_edge (g : cg_data) (index : Z) : cprog unit :=
+  fi <~ cg_get g GfTo index ;;
+  let node_index := (- fi)%Z in
+  ff <~ cg_get g GfTo node_index ;;
+  let first_index := (- ff)%Z in
+  next <~ cg_get g GfToMeta index ;;
+  (if (first_index =? index)%Z then cg_set g GfTo node_index next
+   else previous <~ so_find_prev g GfToMeta (N.to_nat (cg_capacity g)) first_index (- index) ;;
+        cg_set g GfToMeta previous next) ;;~
+  count <~ cg_get g GfToMeta node_index ;;
+  cg_set g GfToMeta node_index (count - 1).
+
+(* GraphImpl::remove_edge: an invalid edge is a no-op *)
+Definition so_graph_remove_edge (g : cg_data) (index : Z) : cprog unit :=
+  v <~ so_validate_edge g index ;;
+  if negb v then CRet tt else
+  id <~ cp_transaction ;;
+  so_remove_from_edge g index ;;~
+  so_remove_to_edge g index ;;~
+  so_free_index g (- index) ;;~
+  cp_commit id.
+
+(* remove_from_edges / remove_to_edges of remove_node: `while edge.is_valid() { .. }` *)
+Fixpoint so_remove_from_edges (fuel : nat) (g : cg_data) (edge : Z) : cprog unit :=
+  if (edge =? 0)%Z then CRet tt
+  else match fuel with
+       | O => CErr CvData
+       | S k =>
+         so_remove_to_edge g edge ;;~
+         nx <~ cg_get g GfFromMeta edge ;;
+         so_free_index g (- edge) ;;~
+         so_remove_from_edges k g (- nx)
+       end.
+Fixpoint so_remove_to_edges (fuel : nat) (g : cg_data) (edge : Z) : cprog unit :=
+  if (edge =? 0)%Z then CRet tt
+  else match fuel with
+       | O => CErr CvData
+       | S k =>
+         so_remove_from_edge g edge ;;~
+         nx <~ cg_get g GfToMeta edge ;;
+         so_free_index g (- edge) ;;~
+         so_remove_to_edges k g (- nx)
+       end.
+
+(* GraphImpl::remove_node: an invalid node is a no-op *)
+Definition so_graph_remove_node (g : cg_data) (index : Z) : cprog unit :=
+  v <~ so_validate_node g index ;;
+  if negb v then CRet tt else
+  id <~ cp_transaction ;;
+  e <~ cg_get g GfFrom index ;;
+  so_remove_from_edges (N.to_nat (cg_capacity g)) g (- e) ;;~
+  e2 <~ cg_get g GfTo index ;;
+  so_remove_to_edges (N.to_nat (cg_capacity g)) g (- e2) ;;~
+  so_free_index g index ;;~
+  count <~ cg_node_count g ;;
+  cg_set_node_count g (count - 1) ;;~
+  cp_commit id.
